@@ -571,6 +571,24 @@ pub mod sp {
 
     pub broadcast group group_total { b_total_push, b_total_evict, b_total_store, b_total_fresh, b_total_empty }
 
+    /// removing every occurrence never lengthens the sequence and shortens it when the key occurs (termination of the
+    /// evict-until-fits loops without assuming anything about duplicates)
+    pub proof fn lemma_rm_all_len(s: Seq<String>, k: String)
+        ensures rm_all(s, k).len() <= s.len(), s.contains(k) ==> rm_all(s, k).len() < s.len()
+        decreases s.len()
+    {
+        reveal(Seq::filter);
+        if s.len() > 0 {
+            let init = s.drop_last();
+            lemma_rm_all_len(init, k);
+            if s.contains(k) && s.last() != k {
+                let a = choose|a: int| 0 <= a < s.len() && s[a] == k;
+                assert(init[a] == k);
+                assert(init.contains(k));
+            }
+        }
+    }
+
     pub proof fn lemma_rm_all_nodup(s: Seq<String>, k: String)
         requires s.no_duplicates()
         ensures rm_all(s, k) == rm1(s, k)
@@ -769,17 +787,19 @@ pub fn vd_retain_in<V>(o: &mut VecDeque<String>, m: &HashMap<String, V>)
 pub fn vd_retain_ne(o: &mut VecDeque<String>, key: &String)
     ensures final(o)@ == rm_all(old(o)@, *key),
         old(o)@.no_duplicates() ==> final(o)@ == rm1(old(o)@, *key) && final(o)@.push(*key) == touch(old(o)@, *key),
+        final(o)@.len() <= old(o)@.len(), old(o)@.contains(*key) ==> final(o)@.len() < old(o)@.len(),
 {
     vd_retain_ne_raw(o, key);
-    proof { if old(o)@.no_duplicates() { lemma_rm_all_nodup(old(o)@, *key); } }
+    proof { lemma_rm_all_len(old(o)@, *key); if old(o)@.no_duplicates() { lemma_rm_all_nodup(old(o)@, *key); } }
 }
 
 pub fn vd_retain_ne_str(o: &mut VecDeque<String>, key: &str)
     ensures final(o)@ == rm_all(old(o)@, s2s(key)),
         old(o)@.no_duplicates() ==> final(o)@ == rm1(old(o)@, s2s(key)) && final(o)@.push(s2s(key)) == touch(old(o)@, s2s(key)),
+        final(o)@.len() <= old(o)@.len(), old(o)@.contains(s2s(key)) ==> final(o)@.len() < old(o)@.len(),
 {
     vd_retain_ne_str_raw(o, key);
-    proof { if old(o)@.no_duplicates() { lemma_rm_all_nodup(old(o)@, s2s(key)); } }
+    proof { lemma_rm_all_len(old(o)@, s2s(key)); if old(o)@.no_duplicates() { lemma_rm_all_nodup(old(o)@, s2s(key)); } }
 }
 
 } // verus!
